@@ -973,3 +973,48 @@ Proof.
   split; auto. intros i Hi.
   exact (count_bound_statement exp tl u1 exp_nonneg Hpos Hs Hu0 Hu1 i Hi).
 Qed.
+
+(* ------------------------------------------------------------------ *)
+(* the three-member form of the loop body (Resampling.cpp:88-90) *)
+Lemma copy_members_eq {A B C} (ps : list (particle A B C)) d i : copy_members ps d i = nth i ps d.
+Proof. unfold copy_members. destruct (nth i ps d); reflexivity. Qed.
+
+Lemma resample3_eq (S : SOps) {A B C} (ps : list (particle A B C)) lw u1 :
+  @resample3 S A B C ps lw u1 = @resample S _ ps lw u1.
+Proof.
+  unfold resample3, resample. destruct ps as [|d ps']; [reflexivity|]. f_equal. f_equal.
+  apply map_ext. intro i. apply copy_members_eq.
+Qed.
+
+(* per member: state, mean and covariance of output j are those of the parent it reports *)
+Lemma resample3_copy (S : SOps) {A B C} (ps : list (particle A B C)) lw u1 d j :
+  ps <> [] -> (j < length lw)%nat -> length ps = length lw ->
+  let '(out, w, par) := @resample3 S A B C ps lw u1 in
+  p_state (nth j out d) = p_state (nth (nth j par 0%nat) ps d) /\
+  p_mean (nth j out d) = p_mean (nth (nth j par 0%nat) ps d) /\
+  p_cov (nth j out d) = p_cov (nth (nth j par 0%nat) ps d).
+Proof.
+  intros H1 H2 H3. rewrite resample3_eq. pose proof (resample_copy S ps lw u1 d j H1 H2 H3) as C0.
+  destruct (@resample S _ ps lw u1) as [[out w] par]. rewrite C0. auto.
+Qed.
+
+(* prior variant: the fresh part is exactly what the initialiser returned; members of the resampled part *)
+Lemma prior_fresh_left (S : SOps) {P} (init : nat -> list P) ratio (ps : list P) lw u1 :
+  length (init (num_prior S (length ps) ratio)) = num_prior S (length ps) ratio ->
+  firstn (num_prior S (length ps) ratio) (pparts (fst (@resample_prior S P init ratio ps lw u1)))
+  = init (num_prior S (length ps) ratio).
+Proof.
+  intro Hinit. rewrite resample_prior_eq. cbn [fst pparts].
+  rewrite <- Hinit at 1. rewrite firstn_app, Nat.sub_diag, firstn_all. simpl. apply app_nil_r.
+Qed.
+
+Lemma prior_copy_members (S : SOps) {A B C} (init : nat -> list (particle A B C)) ratio (ps : list (particle A B C)) lw u1 :
+  length lw = length ps -> (0 < length ps)%nat ->
+  length (init (num_prior S (length ps) ratio)) = num_prior S (length ps) ratio ->
+  forall j d, (j < length ps - num_prior S (length ps) ratio)%nat ->
+  let o := nth (num_prior S (length ps) ratio + j) (pparts (fst (@resample_prior S _ init ratio ps lw u1))) d in
+  let p := nth (Z.to_nat (nth (num_prior S (length ps) ratio + j) (snd (@resample_prior S _ init ratio ps lw u1)) 0%Z)) ps d in
+  p_state o = p_state p /\ p_mean o = p_mean p /\ p_cov o = p_cov p.
+Proof.
+  intros H1 H2 H3 j d Hj o p. unfold o, p. rewrite (prior_copy S init ratio ps lw u1 H1 H2 H3 j d Hj). auto.
+Qed.
